@@ -454,11 +454,30 @@ def Packed.tobytes (t : Packed) : R (List Nat) :=
   | .error e => .error e
   | .ok _ => .ok t.raw
 
+/-- `Tensor.__init__` on an array with a non-native byte order (`_core.py` 517-531):
+    `DataType.from_numpy(value.dtype)` / `_check_numpy_representation_type` look the dtype up in
+    `_NP_TYPE_TO_DATA_TYPE`, whose keys are native-order dtypes, so the array is rejected with
+    `TypeError` and no tensor exists.  (Were such an array ever accepted, `tobytes()` would still
+    have to be `arrayBytes` -- the little-endian items -- whatever the memory order: that is what
+    the oracle of the check demands.) -/
+def arrayBECtor (_d : DType) : R Unit := .error "TypeError"
+
+/-- observables of a tensor over a non-native byte-order array: the constructor check first, then
+    the byte-order independent answers of the array-backed tensor -/
+def arrayBEBytes (d : DType) (elems : List Nat) : R (List Nat) :=
+  match arrayBECtor d with
+  | .error e => .error e
+  | .ok _ => arrayBytes d (npItemBytes d) elems
+
 /-! ## All representations -/
 
 inductive Rep where
   /-- `_core.Tensor` over a numpy array: storage units of the array -/
   | array (d : DType) (dims : List Nat) (elems : List Nat)
+  /-- `_core.Tensor` over a numpy array whose dtype carries an explicit NON-native byte order
+      (`'>f4'`, `'>i8'`, ... e.g. loaded from a big-endian `.npy`); `elems` are the element bit
+      patterns (values), not the swapped memory -/
+  | arrayBE (d : DType) (dims : List Nat) (elems : List Nat)
   /-- `tensor_adapters.TorchTensor`: storage units of the torch tensor -/
   | torch (d : DType) (dims : List Nat) (elems : List Nat)
   | packed (t : Packed)
@@ -472,6 +491,7 @@ namespace Rep
 
 def dtype : Rep → R DType
   | array d _ _ => .ok d
+  | arrayBE d _ _ => match arrayBECtor d with | .ok _ => .ok d | .error e => .error e
   | torch d _ _ => if d.torchMapped then .ok d else .error "TypeError"
   | packed t => .ok t.dtype
   | proto p => p.dtype
@@ -480,6 +500,7 @@ def dtype : Rep → R DType
 
 def shape : Rep → List Nat
   | array _ dims _ => dims
+  | arrayBE _ dims _ => dims
   | torch _ dims _ => dims
   | packed t => t.dims
   | proto p => p.dims
@@ -495,6 +516,7 @@ def nbytes (r : Rep) : R Nat :=
 /-- storage units of `numpy()` -/
 def numpy : Rep → R (List Nat)
   | array _ _ elems => .ok elems
+  | arrayBE d _ elems => match arrayBECtor d with | .ok _ => .ok elems | .error e => .error e
   | torch d _ elems => if d.torchMapped then .ok elems else .error "TypeError"
   | packed t => t.numpy
   | proto p => p.numpy
@@ -503,6 +525,7 @@ def numpy : Rep → R (List Nat)
 
 def tobytes : Rep → R (List Nat)
   | array d _ elems => arrayBytes d (npItemBytes d) elems
+  | arrayBE d _ elems => arrayBEBytes d elems
   | torch d _ elems => torchBytes d elems
   | packed t => t.tobytes
   | proto p => p.tobytes
@@ -523,6 +546,7 @@ def tofile : Rep → R (List Nat × Bool)
   | external e file => e.tofile file
   | lazy _ _ inner => inner.tofile
   | array d dims elems => wrote (array d dims elems).tobytes
+  | arrayBE d dims elems => wrote (arrayBE d dims elems).tobytes
   | torch d dims elems => wrote (torch d dims elems).tobytes
   | packed t => wrote (packed t).tobytes
   | proto p => wrote (proto p).tobytes
@@ -580,6 +604,7 @@ def serialize : Rep → R Proto
   | .external e _ =>
     .ok { dataType := e.dtype.code, dims := e.dims, external := some (e.offset, e.length) }
   | .array d dims elems => serializeRaw (.array d dims elems)    -- raw_data = tobytes()
+  | .arrayBE d dims elems => serializeRaw (.arrayBE d dims elems)
   | .torch d dims elems => serializeRaw (.torch d dims elems)
   | .packed t => serializeRaw (.packed t)
   | .lazy d dims inner => serializeRaw (.lazy d dims inner)
